@@ -66,8 +66,9 @@ class P(vlib.Prop):
                       "zz_verif_c14_shape_test.go": _instantiate("e2etest")},
                      "^TestVerifC14Resolve$", "e2etest", timeout=900),
     ]
-    rule = ("the REAL configopaque.String alone and inside 30 (thorough: 63) container shapes (pointer, exported / unexported "
-            "struct field, slice, array, map value, map key, interface, nested up to depth 4), each rendered with 10 adversarial "
+    rule = ("the REAL configopaque.String alone and inside 34 (thorough: 68) container shapes (pointer, exported / unexported "
+            "struct field, slice, array, map value, map key, TWO colliding map keys, interface, nested up to depth 4; plus 4 (6) "
+            "oracle-only shapes with struct / array map keys for the encoders' error paths), each rendered with 10 adversarial "
             "secrets (two equal-length distinct ones, format directives, the marker itself, empty, unicode, quotes/escapes, "
             "config-syntax, invalid UTF-8, 4 KiB) through: fmt.Sprintf for the verbs v s q x X with ALL 32 flag sets "
             "(width/precision variants exhaustive on the 8 basic shapes, sampled elsewhere; thorough: exhaustive), every "
@@ -76,7 +77,13 @@ class P(vlib.Prop):
             "zap's JSON encoder, the four methods, the explicit conversion; decoding through json, yaml and confmap in four "
             "struct contexts. Every rendering with 2 of the secrets is compared with the Coq model's string inside Coq "
             "(batches of <= 40 renderings per case); a case is non-trivial always (each contains at least one rendering); "
-            "distinct = distinct case terms. Oracle-only paths: sigs.k8s.io/yaml, gob, xml, text/template, log, slog, json.MarshalIndent, "
+            "distinct = distinct case terms. Error texts of failing encoders are renderings like any other. "
+            "Harness C: 53 texts chosen by what YAML makes of them (int, octal, float, bool, null, ~, comment, collections, timestamp, "
+            "quoted, blanks, multi-line, invalid YAML, marker, directives, unicode) reach opaque fields through ${env:}/${file:} "
+            "expansions resolved by confmap.Resolver into a scalar field, a nested field, a map value, a slice element, inline "
+            "text and a pointer field. Use: real HTTP round trips (client headers incl. -bin names and Host, server response "
+            "headers), a real gRPC unary and stream call through ClientConfig.ToClientConn with 6 key styles x all secrets, TLS key "
+            "pair loading; what arrives is compared with the configured secret. Oracle-only paths: sigs.k8s.io/yaml, gob, xml, text/template, log, slog, json.MarshalIndent, "
             "Sprintf with extra/indexed/star operands, sugared logger, console encoder, real confighttp/configgrpc/configtls structs.")
     trusted_base = [
         "Coq 8.16.1 kernel + vm_compute (coqc); no axioms (Print Assumptions: closed under the global context)",
@@ -85,6 +92,7 @@ class P(vlib.Prop):
         "Go harnesses harness/C14/*.go (+ shape.go.tmpl) and go test -overlay; Go toolchain and standard library",
     ]
     assumptions = [
+        "the consumers enumerated in Model.consumer are the code that needs the secret (confighttp client/server headers, configgrpc metadata, configtls key pair)",
         "the renderers enumerated in Model.path are the rendering paths (a renderer outside the enumeration is outside the theorems)",
         "fmt/json/yaml/zap consult a value only through the interfaces modelled (Formatter, GoStringer, Stringer, error, TextMarshaler; json.Marshaler / yaml.Marshaler / zapcore.ObjectMarshaler are absent from the method set: instance obligation opaque_method_set_is_expected)",
         "quoting rules (strconv.Quote, JSON escaping) and rune counting are modelled for ASCII and valid UTF-8; they only matter on the leaking paths, where the correspondence uses ASCII secrets",
